@@ -7,5 +7,6 @@ INVARIANT NoUseAfterRelease
 INVARIANT NoReadBeforeProduced
 INVARIANT OutputsPresent
 INVARIANT DeadlockFree
+INVARIANT NoLeftovers
 INVARIANT HaltedIsDisabled
 CHECK_DEADLOCK FALSE
